@@ -1,5 +1,5 @@
 SPECIFICATION Spec
-CONSTANTS MaxN = 3 MaxIter = 2 StrictA = FALSE
+CONSTANTS MaxN = 3 MaxIter = 2 StrictA = FALSE GenMod = 1
   AsIs_UnconditionalUnshuffle = FALSE Mut_NoReshuffle = FALSE Mut_FeedUnlabeled = FALSE Mut_InverseMixup = FALSE
 CONSTANT Thresholds <- ThrSmall
 CONSTANT ShuffleVals <- BothB
